@@ -42,6 +42,7 @@ def setup(ctx):
     ctx.require("monitor", "evictions_observed", 1)
     ctx.require("monitor", "projection_reruns", 20)
     ctx.require("monitor", "scheduled_histories", 20)
+    ctx.require("monitor", "crowd_histories", 4)
     ctx.require("monitor", "wired_decisions", 30)
     ctx.require("monitor", "wired_tls_decisions", 40)
     ctx.require("monitor", "extreme_config_decisions", 100)
@@ -588,6 +589,31 @@ def run(ctx):
                 decisions, seen = judge(ctx, cfg, ev, "tick-race", scheduled=True)
                 ctx.case(("tick-race", cap, rate, naddr, j, len(who), tuple(d[2] for d in decisions[-6:])), True,
                          sample={"config": cfg, "events": [(t, len(a)) for t, a in ev], "decisions_tail": [d[2] for d in decisions[-8:]]})
+    # ---- crowds: thousands of distinct addresses come by between two visits of a client that has used up its
+    # burst (a busy public server, a scan over a /64); whatever the limiter does to bound its table, the returning
+    # client has exactly the tokens the configured policy gives it
+    for crowd in ((1500, 5000) if ctx.quick() else (1500, 5000, 20000, 70000)):
+        for cap, rate in ((1, 1 / 1024), (3, 1 / 4096)):
+            k += 1
+            if not ctx.mine(k):
+                continue
+            cfg = {"capacity": cap, "rate": rate, "retry_after": 30}
+            early, mid = "10.0.0.1", "2001:db8::77"
+            events = [(0.0, [early] * (cap + 1))]
+            per = max(1, crowd // 50)
+            made = 0
+            t = 1.0
+            while made < crowd:
+                batch = [f"10.{1 + (j >> 16)}.{(j >> 8) & 255}.{j & 255}" for j in range(made, min(crowd, made + per))]
+                made += len(batch)
+                events.append((t, batch))
+                if made >= crowd // 2 and all(mid not in a for _, a in events):
+                    events.append((t + 0.5, [mid] * (cap + 1)))
+                t += 1.0
+            events += [(t, [early, mid]), (t + 8.0, [early, early, mid]), (t + 9.0, batch[:3] + [early])]
+            decisions, seen = judge(ctx, cfg, events, f"crowd:{crowd}")
+            ctx.count("monitor", "crowd_histories")
+            ctx.case(("crowd", crowd, cap, tuple(d[2] for d in decisions[-9:])), True, sample={"config": cfg, "distinct_addresses": len(seen), "decisions_tail": [(d[0], d[1], d[2]) for d in decisions[-9:]]})
     # ---- random long runs
     n = ctx.pick(260, 16000) // ctx.nshards
     for i in range(n):
